@@ -76,10 +76,7 @@ def main(argv=None):
     from .run import load_contracts, verify_unit
     load_contracts()
     from . import dsl
-    if pid not in dsl.REG.props:
-        print("no contracts registered for %s" % pid)
-        return 3
-    p = dsl.REG.props[pid]
+    p = dsl.REG.props.get(pid, dict(fucs=[], lemmas=[], notes=[], static=[]))
     timeout = 10.0 if tier == "quick" else 60.0
     allb = tier == "thorough"
     units = [("fuc", f, timeout, allb, REPO) for f in p["fucs"]] + [("lemma", l, timeout, allb, REPO) for l in p["lemmas"]] \
@@ -94,8 +91,10 @@ def main(argv=None):
         bounded_proc = subprocess.Popen([VENV_PY, os.path.join(HERE, "replay", "run.py"), "bounded", pid, tier, str(seed)],
                                         stdout=subprocess.PIPE, stderr=subprocess.PIPE, text=True, env=env, cwd=HERE)
     ctx = multiprocessing.get_context("fork")
-    with ctx.Pool(min(a.jobs, max(1, len(units)))) as pool:
-        results = pool.map(verify_unit, units, chunksize=1)
+    results = []
+    if units:
+        with ctx.Pool(min(a.jobs, max(1, len(units)))) as pool:
+            results = pool.map(verify_unit, units, chunksize=1)
 
     vcs = [dict(v, unit=r["unit"]) for r in results for v in r["vcs"]]
     by_name = {}
@@ -105,8 +104,11 @@ def main(argv=None):
     failing = {n: [v for v in vs if v["result"] != "discharged"] for n, vs in by_name.items()}
     failing = {n: vs for n, vs in failing.items() if vs}
     n_dis = n_obl - len(failing)
-    if len(vcs) == 0 or n_obl == 0:
+    if units and (len(vcs) == 0 or n_obl == 0):
         print("checker error: zero obligations generated for %s" % pid)
+        return 3
+    if not units and bounded_proc is None:
+        print("checker error: nothing to check for %s" % pid)
         return 3
 
     # bounded stand-in result
@@ -167,12 +169,16 @@ def main(argv=None):
         violations.append((name, rp, confirmed))
     # bounded stand-in violations with no failing obligation are violations too (run-time contract fired on the real code)
     if bounded and bounded.get("violations"):
-        for i, b in enumerate(bounded["violations"][:5]):
+        for i, b in enumerate(bounded["violations"][:12]):
             if b.get("known"):
-                if not any(k is b.get("known") for _, k in known_hits):
-                    known_hits.append((b.get("what", "bounded"), dict(what=b.get("known"))))
-                continue
-            if any(c for (_, _, c) in violations):
+                # only findings listed in the committed known_findings.json are known; the label a stand-in attaches is a hint
+                entry = next((k for k in known if k.get("property") == pid and k.get("status") == "known"
+                              and k.get("witness") and (k["witness"] in b["known"] or b["known"] in k["witness"])), None)
+                if entry is not None:
+                    if not any(e is entry for _, e in known_hits):
+                        known_hits.append(("bounded-stand-in", entry))
+                    continue
+            if sum(1 for (n_, _, _) in violations if n_.startswith("bounded-stand-in")) >= 3:
                 break
             rp = os.path.join("replays", pid, "bounded_%d.json" % i)
             with open(os.path.join(HERE, rp), "w") as f:
@@ -184,6 +190,11 @@ def main(argv=None):
         samples.append(dict(obligation=name, vcs=len(vs), result=vs[0]["result"], backend=vs[0]["backend"]))
     for name, rp, c in violations[:3]:
         samples.append(dict(obligation=name, result="VIOLATION", replay=rp, replayed=c))
+    if bounded:
+        for x in (bounded.get("samples") or [])[:3]:
+            samples.append(x)
+        for x in (bounded.get("standins") or [])[:3]:
+            samples.append(dict(bounded_standin=x.get("name"), bound=x.get("bound"), cases=x.get("cases")))
     by_backend = {}
     for v in vcs:
         if v["result"] == "discharged":
@@ -213,7 +224,7 @@ def main(argv=None):
         "spec functions terminate (their definitional equations are instantiated as axioms)",
         "z3/cvc5 are trusted for `unsat`; `sat` models are validated by re-evaluation",
     ])
-    level = "proof"
+    level = "proof" if units else "exploration"
     coverage = dict(
         obligations=n_obl, discharged=n_dis, verification_conditions=len(vcs),
         vcs_discharged=sum(1 for v in vcs if v["result"] == "discharged"),
@@ -231,8 +242,9 @@ def main(argv=None):
         coverage["evaluations"] = int(bounded.get("evaluations", 0))
         coverage["distinct_nontrivial"] = int(bounded.get("distinct_nontrivial", 0))
         coverage["rule"] = bounded.get("rule", "")
-    if n_dis != n_obl:
-        level = "proof"      # claim stays; discharged < obligations shows honestly that it is not established on this tree
+    if bounded and not units and int(bounded.get("evaluations", 0)) == 0:
+        print("checker error: the bounded stand-in explored nothing")
+        return 3
     ev = dict(property_id=pid, tier=tier, seed=seed, level=level, coverage=coverage, assumptions=sorted(assumptions),
               wall_s=round(time.time() - t0, 2), violations=len(violations))
     os.makedirs(os.path.join(HERE, "evidence"), exist_ok=True)
